@@ -404,6 +404,11 @@ def case_checks(k, case, res):
         obj = "@bind domain (option domain) %s (fun d => get_subdomain d %s)" % (J, st)
         enc_opt = lambda dj: "None" if dj is None else "(Some %s)" % coq_domain_of_json(em, dj, table)
         checks.append(("sub%d" % qi, "res_optdomain_sim (%s) %s" % (obj, coq_res(em, r, enc_opt, table)), obj))
+        if "t" in sel and "ok" in r and r["ok"] is not None and not r["ok"].get("is_self") and "ok" in res["join"] \
+                and case["geo"].get("wellformed") and case["kind"] == "grid" and not pair_overwrite(case):
+            # a proper selection that succeeded: the hypotheses of C13_get_subdomain_spec hold (decided inside Coq)
+            hy = "match %s with Ok d => sub_hyps_b d %s | Err _ => false end" % (J, coq_list([coq_str(x) for x in sel["t"]]))
+            checks.append(("subwf%d" % qi, hy, hy))
     if case["geo"].get("wellformed") and "ok" in res["join"] and not case.get("mapjoined") and case["kind"] != "sharedlog":
         # the hypotheses of the theorems of Props/C13.v hold for this input (decided inside Coq)
         checks.append(("wf", "wf_join_b %s %s || negb (pair_bound_b %s %s)" % (ps, cs, ps, cs), "wf_join_b %s %s" % (ps, cs)))
@@ -890,7 +895,13 @@ def main(run, replay=None):
     cases = []
     cpath = Path(run.work).parents[1] / "corpus" / "C13.json"
     if replay:
-        cases = [json.load(open(replay))["case"]]
+        rc = json.load(open(replay))["case"]
+        if isinstance(rc, dict) and "case" in rc and "patches" not in rc:
+            rc = rc["case"]
+        cases = [rc] if isinstance(rc, dict) and "patches" in rc else []
+        if not cases:
+            run.report({"kind": "replay"}, "the replay file records a failed obligation / build, not an input case: re-run the tier",
+                       rc, found_input=False, theorem_or_case="replay")
     else:
         if cpath.exists():
             cases += json.load(open(cpath))
@@ -1030,7 +1041,7 @@ def main(run, replay=None):
         kinds[case["kind"].split(":")[0]] = kinds.get(case["kind"].split(":")[0], 0) + 1
         dims[str(case["dim"])] = dims.get(str(case["dim"]), 0) + 1
         npatch[str(len(case["patches"]))] = npatch.get(str(len(case["patches"])), 0) + 1
-        nconn[str(len(case["conns"]))] = nconn.get(str(len(case["conns"]))[:2], 0) + 1
+        nconn[str(len(case["conns"]))] = nconn.get(str(len(case["conns"])), 0) + 1
         mm = "all" if all(p.get("map") for p in case["patches"]) else ("none" if not any(p.get("map") for p in case["patches"]) else "mixed")
         mapped[mm] = mapped.get(mm, 0) + 1
         e = res["join"].get("err", "ok")
@@ -1066,6 +1077,9 @@ def main(run, replay=None):
         "unordered patch pair and one per self pair (otherwise a dict entry is overwritten: C13_partition_refuted); patch names distinct, "
         "without '|', dimension <= 4. The hypotheses are decided per case inside Coq (wf_join_b).",
         "Python's sorted/set/dict are modelled as stable insertion sort, first-occurrence de-duplication and an association list.",
+        "Sub-domains: C13_get_subdomain_spec characterises every proper selection of a domain whose interface dictionary has unique "
+        "(minus patch, plus patch) keys and names (sub_hyps, decided per case by sub_hyps_b); an interface from a selected patch to "
+        "itself is outside the characterisation (C13_get_subdomain_self_interface_refuted).",
         "Shared corners: no Coq model; the implementation's grouping is compared with the geometric ground truth of the generated grid "
         "(2-D, geometrically consistent orientations) - sampling, not proof.",
         "In 3-D an interface whose minus/plus sides are exchanged by the name-clash rule keeps the declared orientation triple; whether the "
